@@ -492,12 +492,13 @@ func runC01(r *simcore.Run) {
 			}
 		}
 	}
-	for j, got := range e.relay.SvcSeen {
-		if j >= len(rounds) {
-			r.Fail("pipeline", "config-without-health-reply", "service config #%d was emitted but only %d health replies were served", j+1, len(rounds))
-			break
-		}
-		rd := rounds[j]
+	// The model text of every round, in order. A watcher may hand over one config per health reply (as fabio does) or
+	// withhold a config that denotes the same commands as the one it handed over last (nothing for the table to learn):
+	// the emitted configs are aligned with the rounds in order. A round whose commands differ from the last emitted
+	// config must be followed by a config with exactly those commands before any other config: otherwise a table
+	// installed later would be built from a view older than one already observed. Rounds after the last emitted config
+	// are judged by L1 (the quiescent table).
+	model := func(rd round) []string {
 		// only checks of services that advertise a routing tag count (and node / maintenance checks)
 		var view []*api.HealthCheck
 		for _, c := range rd.health.Health {
@@ -505,15 +506,32 @@ func runC01(r *simcore.Run) {
 				view = append(view, c)
 			}
 		}
-		want := c01Commands(c01Eligible(view, sc.Status, sc.Strict), rd.catalogs)
+		return c01Commands(c01Eligible(view, sc.Status, sc.Strict), rd.catalogs)
+	}
+	j, last, haveLast, s1failed := 0, "", false, false
+	for k := 0; k < len(rounds) && j < len(e.relay.SvcSeen); k++ {
+		rd := rounds[k]
+		want := strings.Join(model(rd), "\n")
+		got := e.relay.SvcSeen[j]
 		gotCmds, err := h1ParseCmds(got)
 		if err != nil {
 			r.Fail("pipeline", "generated-config-rejected", "service config #%d is rejected by fabio's own parser: %v\n%s", j+1, err, got)
+			j, s1failed = j+1, true
 			continue
 		}
-		if strings.Join(gotCmds, "\n") != strings.Join(want, "\n") {
-			r.Fail("pipeline", "config-differs-from-model", "service config #%d (health reply #%d, idx %d):\n got: %s\nwant: %s", j+1, rd.health.Seq, rd.health.Index, strings.Join(gotCmds, " | "), strings.Join(want, " | "))
+		if strings.Join(gotCmds, "\n") == want {
+			j, last, haveLast = j+1, want, true
+			continue
 		}
+		if haveLast && want == last {
+			r.Probe("config_withheld_unchanged")
+			continue // nothing new in this round: the watcher may keep quiet
+		}
+		r.Fail("pipeline", "config-differs-from-model", "service config #%d (health reply #%d, idx %d):\n got: %s\nwant: %s", j+1, rd.health.Seq, rd.health.Index, strings.Join(gotCmds, " | "), strings.ReplaceAll(want, "\n", " | "))
+		j, s1failed = j+1, true
+	}
+	if j < len(e.relay.SvcSeen) && !s1failed {
+		r.Fail("pipeline", "config-without-health-reply", "service config #%d was emitted but the %d health replies served are all accounted for", j+1, len(rounds))
 	}
 
 	// S2: every installed table is NewTable(latest service config + "\n" + latest manual config)
